@@ -36,6 +36,16 @@ def gen_cases(tier, seed):
         fam = FAMS[k % len(FAMS)]
         cases.append({"seed": int(child.generate_state(1)[0]), "max_atoms": (150 if fam == "minority_compound" else 110) if q else 300,
                       "family": fam, "allow_invalid": False})
+    # threshold-edge inputs: ideal simple-cubic supercells, a uniform custom radii array and a bond threshold whose
+    # decimal value coincides with the nearest-neighbour gap a - 2r.  They are ILL-CONDITIONED (gap within an ulp of the
+    # threshold) and counted out of domain by the monitor; a few are kept so that the evidence shows the rule at work
+    erng = np.random.default_rng([seed, 131313])
+    for _ in range(6 if q else 60):
+        a = float(erng.choice([3.0, 3.25, 3.5, 3.75, 4.0]))
+        thr = float(erng.choice([0.45, 0.5, 0.55, 0.6, 0.65, 0.7, 0.75, 0.8, 0.85, 0.9, 0.95]))
+        cases.append({"kind": "threshold_edge", "a": a, "thr": thr, "r": round((a - thr) / 2, 4),
+                      "rep": [int(x) for x in erng.choice([3, 3, 4], size=3)], "pbc": [bool(x) for x in erng.random(3) < 0.8],
+                      "element": str(erng.choice(["Fe", "Ti", "Zr", "Po", "Cu"])), "perm_seed": int(erng.integers(1 << 30))})
     from gen import slabs
     rng = np.random.default_rng([seed, 1313])
     u2, u3 = slabs.c02_cells(), slabs.c03_cells()
@@ -45,7 +55,42 @@ def gen_cases(tier, seed):
     return cases
 
 
+def run_threshold_edge(case):
+    import matid
+    from ase.build import bulk
+    from monitors import core, pipeline
+    rec = core.Recorder()
+    atoms = bulk(case["element"], "sc", a=case["a"]).repeat(tuple(case["rep"]))
+    atoms.set_pbc(case["pbc"])
+    prng = np.random.default_rng(case["perm_seed"])
+    if prng.random() < 0.5:
+        atoms = atoms[[int(i) for i in prng.permutation(len(atoms))]]
+    params = {"radii": np.full(len(atoms), case["r"]), "bond_threshold": case["thr"]}
+    pipeline.reset_stage_state()
+    core.set_recorder(rec)
+    n = -1
+    try:
+        try:
+            clusters = matid.SBC().get_clusters(atoms, **params)
+            n = len(clusters)
+            pipeline.check_cluster_dimensionality(rec, sbcfam.M_C13, atoms, params, clusters, pipeline.changed_clusters())
+            rec.note("threshold_edge_clusters_judged", n)
+        except Exception as e:
+            rec.note("sbc_exception:%s" % type(e).__name__)
+    finally:
+        core.set_recorder(None)
+    out = rec.export()
+    gap = case["a"] - (case["r"] + case["r"])
+    side = "gap==thr" if gap == case["thr"] else ("gap>thr" if gap > case["thr"] else "gap<thr")
+    out["info"] = {"key": "threshold_edge|%s|%s|%s|%s" % (case["a"], case["thr"], "".join("TF"[not b] for b in case["pbc"]), side),
+                   "nontrivial": n > 0, "classes": {"family": "threshold_edge", "n_clusters": n, "radii": "custom", "float_gap": side}}
+    out["sample"] = {"a": case["a"], "r": case["r"], "thr": case["thr"], "natoms": len(atoms), "n_clusters": n, "float_gap": side}
+    return out
+
+
 def run_case(case):
+    if case.get("kind") == "threshold_edge":
+        return run_threshold_edge(case)
     if case.get("kind") in ("c02cell", "c03cell"):
         return run_enumerated(case)
     return sbcfam.run_sbc_case(case, want_c13=True, determinism=False)
